@@ -134,7 +134,7 @@ package parser
 //@   ensures [span] result.Pos.Offset == old(l.pos) && old(l.pos) < result.End.Offset && result.End.Offset <= l.pos && result.Type == TokenAccount
 //@   ensures [posvalid] result.Pos.Line >= 1 && result.Pos.Column >= 1 && result.Pos.Line <= len(l.input) + 1 && result.Pos.Column <= len(l.input) + 1
 //@   ensures [C08:endvalid] result.End.Line >= 1 && result.End.Column >= 1 && result.End.Line <= len(l.input) + 1 && result.End.Column <= len(l.input) + 1
-//@   ensures [C08:lexeme_exact] result.End.Offset == old(l.pos) + len(result.Value)
+//@   ensures [C08,C09:lexeme_exact] result.End.Offset == old(l.pos) + len(result.Value)
 //@   modifies l.pos, l.column
 //@   loop 1 invariant LexInv(l) && Pos16(l) && l.input == old(l.input) && l.atStart == old(l.atStart) && l.line == old(l.line)
 //@   loop 1 invariant old(l.pos) <= lastNonSpace && lastNonSpace <= l.pos && start == old(l.pos) && startPos.Offset == old(l.pos) && endPos.Offset == lastNonSpace && PosOK(l.input, endPos)
@@ -552,10 +552,11 @@ package parser
 // A parsed amount never carries a decimal exponent outside +-1000: exact arithmetic on it (sums, negation, comparison)
 // costs time bounded by the length of the number text plus that constant (C06: extreme exponents).
 //@ func (*Parser).parseAmount
-//@   props C06
+//@   props C06 C02
 //@   requires ParInv(p)
 //@   ensures [inv] ParInv(p) && PFrame(p) && MuLe(p)
 //@   ensures [C06:exponent_bounded] result != nil ==> 0 - 1000 <= expo && expo <= 1000
+//@   ensures [C02:sign_kept] result != nil && sign == "-" ==> hasprefix(result.RawQuantity, "-")
 //@   modifies p.current, p.errors, p.defaultYear, p.lexer.pos, p.lexer.column, p.lexer.line, p.lexer.atStart
 
 //@ func (*Parser).parseCost
